@@ -38,6 +38,9 @@ type Req struct {
 	Raw    string    `json:"raw,omitempty"`    // literal bytes instead of an HTTP request
 	Close  bool      `json:"close,omitempty"`  // Connection: close
 	Pad    int       `json:"pad,omitempty"`    // huge-string attacks: body is expanded at run time (@@PAD@@)
+	// decorations that must not change the documented answer
+	CType string `json:"ctype,omitempty"` // Content-Type header ("" = application/json, "-" = none)
+	Query string `json:"query,omitempty"` // query string appended to a POST path (the parameters are in the body)
 }
 
 type Event struct {
@@ -275,7 +278,33 @@ func genGood(t *rapid.T) Req {
 		}
 	}
 	r.Close = weighted(t, "connClose", 9, 1) == 1
+	decorate(t, &r)
 	return r
+}
+
+// ctypes all say "JSON in UTF-8": a server may not treat them differently.
+var ctypes = []string{"application/json; charset=utf-8", "application/json; charset=UTF-8", "application/json;charset=Utf-8", `application/json; charset="utf-8"`, "application/json ; charset=utf8", "APPLICATION/JSON", "application/json; charset=UTF-8; x=y", "-"}
+
+// decorate adds what a client may legitimately add without changing what it asks
+// for: a Content-Type spelling, or a query string on a POST whose parameters are
+// in the body (names of body fields with other values included).
+func decorate(t *rapid.T, r *Req) {
+	if r.Method != "POST" {
+		return
+	}
+	if weighted(t, "ctype?", 4, 1) == 1 {
+		r.CType = rapid.SampledFrom(ctypes).Draw(t, "ctype")
+	}
+	if weighted(t, "query?", 6, 1) == 1 && !strings.Contains(r.Path, "?") {
+		n := rapid.IntRange(1, 3).Draw(t, "nQuery")
+		var qs []string
+		for i := 0; i < n; i++ {
+			k := rapid.SampledFrom([]string{"counter", "code", "secret", "timestamp", "digits", "period", "skew", "algorithm", "raw_suite", "type", "issuer", "account_name", "x", "debug"}).Draw(t, "qKey")
+			v := rapid.SampledFrom([]string{"5", "0", "1", "123456", "287082", "SHA512", "8", "60", "2", "JBSWY3DPEHPK3PXP", "OCRA-1:HOTP-SHA1-6:QN08", "hotp", "true", ""}).Draw(t, "qVal")
+			qs = append(qs, k+"="+v)
+		}
+		r.Query = strings.Join(qs, "&")
+	}
 }
 
 // genChain: generate at one endpoint, validate the answer at the matching one.
@@ -338,7 +367,7 @@ var allPaths = []string{"/totp/generate", "/totp/validate", "/hotp/generate", "/
 
 func genAttack(t *rapid.T) Req {
 	kind := rapid.SampledFrom([]string{"truncated-json", "truncated-json", "type-confusion", "extreme-number", "extreme-number", "weird-body", "huge-string", "contradictory-suite",
-		"wrong-method", "unknown-path", "garbage", "missing-required", "bad-http"}).Draw(t, "attack")
+		"wrong-method", "unknown-path", "garbage", "missing-required", "bad-http", "body-nobody-reads"}).Draw(t, "attack")
 	base := genGood(t)
 	for base.Method != "POST" && (kind == "truncated-json" || kind == "type-confusion" || kind == "extreme-number" || kind == "missing-required" || kind == "huge-string") {
 		base = genGood(t)
@@ -393,6 +422,18 @@ func genAttack(t *rapid.T) Req {
 		r.Method = "POST"
 		r.Body = strings.TrimSuffix(body, "}") + "," + extra + "}"
 		r.Expect = "any"
+	case "body-nobody-reads":
+		// a sizeable body sent where no handler will read it (wrong method, unknown
+		// path, a GET route): the probe that follows on the same connection must still
+		// be understood
+		r.Path = rapid.SampledFrom(append([]string{"/nope", "/ocra/suites", "/otp/secret", "/"}, allPaths...)).Draw(t, "bnPath")
+		r.Method = rapid.SampledFrom([]string{"PUT", "DELETE", "PATCH", "POST", "GET", "OPTIONS"}).Draw(t, "bnMethod")
+		if r.Method == "POST" {
+			r.Path = rapid.SampledFrom([]string{"/nope", "/ocra/suites", "/otp/secret", "/", "/totp"}).Draw(t, "bnPostPath")
+		}
+		r.Body = `{"secret":"@@PAD@@"}`
+		r.Pad = rapid.SampledFrom([]int{5000, 9000, 20000, 70000, 300000, 900000}).Draw(t, "bnPad")
+		r.Expect = "any"
 	case "wrong-method":
 		r.Path = rapid.SampledFrom(allPaths).Draw(t, "wmPath")
 		get := r.Path == "/ocra/suites" || r.Path == "/otp/secret" || r.Path == "/"
@@ -405,6 +446,11 @@ func genAttack(t *rapid.T) Req {
 			r.Body = ""
 		}
 		r.Expect = "non2xx"
+		if weighted(t, "exoticMethod?", 3, 1) == 1 {
+			// methods outside the usual set (WebDAV, extension methods, odd spellings)
+			r.Method = rapid.SampledFrom([]string{"PROPFIND", "TRACE", "LOCK", "MKCOL", "REPORT", "M-SEARCH", "FOO", "post", "Get", "QUERY"}).Draw(t, "wmExotic")
+			r.Expect = "any"
+		}
 	case "unknown-path":
 		r.Path = rapid.SampledFrom([]string{"/nope", "/totp", "/totp/generate/", "/TOTP/generate", "/totp//generate", "/../etc/passwd", "/otp/secret/x", "/%00", "/ocra/suitez", "*"}).Draw(t, "upPath")
 		r.Expect = "non2xx"
@@ -563,7 +609,7 @@ func GenPlan(t *rapid.T, prop string) *Plan {
 			}
 		case 7:
 			e.Kind = "manyreq"
-			e.N = rapid.SampledFrom([]int{5, 20, 99, 100, 101, 130}).Draw(t, "manyN")
+			e.N = rapid.SampledFrom([]int{5, 20, 99, 100, 101, 130, 130, 20, 5, 600, 1100}).Draw(t, "manyN")
 			r := genGood(t)
 			r.Close = false
 			e.Req = &r
